@@ -1,0 +1,78 @@
+//go:build verif
+
+package comp
+
+// Verification hooks (build tag `verif`): read-only accessors and the snapshot
+// types shared by the MSI snapshot exporters of proc/mvp7-0, mvp7-1 and mvp8-0
+// (property C06 of /verif). Nothing outside verif-tagged code calls them.
+
+// VerifCounts returns the reader and writer counters of a semaphore.
+func (s *Sem) VerifCounts() (read int, write int) { return s.read, s.write }
+
+// VerifLine is a copy of one cache line.
+type VerifLine struct {
+	Base int32
+	End  int32
+	Data []int8
+}
+
+// VerifLines returns a deep copy of every line the cache holds, most recently
+// used first, the over-capacity line that waits for its eviction included.
+func (c *LRUCache) VerifLines() []VerifLine {
+	res := make([]VerifLine, 0, len(c.lines))
+	for _, l := range c.lines {
+		d := make([]int8, len(l.Data))
+		copy(d, l.Data)
+		res = append(res, VerifLine{Base: int32(l.Boundary[0]), End: int32(l.Boundary[1]), Data: d})
+	}
+	return res
+}
+
+// VerifGeometry returns (number of lines, line length).
+func (c *LRUCache) VerifGeometry() (int, int) { return c.numberOfLines, c.lineLength }
+
+// VerifMsiState is one entry of msi.states.
+type VerifMsiState struct {
+	Core  int
+	Addr  int32
+	State int32 // 0 invalid, 1 shared, 2 modified
+}
+
+// VerifMsiCmd is one outstanding snoop command.
+type VerifMsiCmd struct {
+	Core int
+	Addr int32
+	Kind int32 // the variant's requestType value
+	Done bool
+}
+
+// VerifMsiSem is the lock of one line.
+type VerifMsiSem struct {
+	Addr  int32
+	Read  int
+	Write int
+}
+
+// VerifMsiCore is the cache controller of one core.
+type VerifMsiCore struct {
+	ReadActive   bool    // the read coroutine is past its lock acquisition (not at its start)
+	WriteActive  bool    // the write coroutine likewise
+	SnoopPending bool    // snoop closures are queued
+	RLocks       []int32 // keys of rlockSems (lines locked through coRead), sorted
+	Locks        []int32 // keys of lockSems (lines locked through coWrite), sorted
+	L1           []VerifLine
+}
+
+// VerifMsiSnapshot is the protocol state of a multi-core variant at a cycle boundary.
+type VerifMsiSnapshot struct {
+	L1LineSize int
+	L1Lines    int
+	L3LineSize int // 0: no shared L3 (MVP-7.x)
+	States     []VerifMsiState
+	Cmds       []VerifMsiCmd
+	Sems       []VerifMsiSem
+	Cores      []VerifMsiCore
+	L3         []VerifLine // MVP-8
+	L3Dirty    []int32     // MVP-8: L3 line addresses with l3Write == true, sorted
+	L3Locked   []int32     // MVP-8: L3 line addresses whose mutex is held, sorted
+}
